@@ -34,6 +34,7 @@ type Case struct {
 	Envelope bool            `json:"envelope"`
 	Data     json.RawMessage `json:"data"`
 	Doc      *calcproto.Doc  `json:"doc,omitempty"`
+	CR       *CRSpec         `json:"customer_rates,omitempty"`
 }
 
 func exampleFiles(repo string) []string {
@@ -135,23 +136,39 @@ func classify(cs Case, env *gobl.Envelope) string {
 
 // customerRatesWithAddon: the `customer-rates` tag makes calculate() assign the
 // customer's country to every combo AFTER the normalisers have run, so a
-// normaliser that looks at the combo country (pt-saft-v1: tax-rate NOR vs OUT)
-// sees a different document on the next calculation.
+// normaliser that looks at the combo country (pt-saft-v1: tax-rate NOR vs OUT;
+// the PT regime itself: pt-region PT vs the customer's country; es-verifactu-v1:
+// a combo written with a foreign country of its own is left alone in the first
+// calculation and, once the customer's country ES replaced it and was dropped,
+// receives regime 01 / op-class S1 in the next) sees a different document on
+// the next calculation.  The input has the tag and either one of those two
+// addons or a PT regime (`$regime` or the supplier's tax country).
 func customerRatesWithAddon(data []byte) bool {
+	type head struct {
+		Tags     []string `json:"$tags"`
+		Addons   []string `json:"$addons"`
+		Regime   string   `json:"$regime"`
+		Supplier *struct {
+			TaxID *struct {
+				Country string `json:"country"`
+			} `json:"tax_id"`
+		} `json:"supplier"`
+	}
 	var d struct {
-		Tags   []string `json:"$tags"`
-		Addons []string `json:"$addons"`
-		Doc    *struct {
-			Tags   []string `json:"$tags"`
-			Addons []string `json:"$addons"`
-		} `json:"doc"`
+		head
+		Doc *head `json:"doc"`
 	}
 	if json.Unmarshal(data, &d) != nil {
 		return false
 	}
 	tags, addons := d.Tags, d.Addons
+	pt := func(h *head) bool {
+		return h.Regime == "PT" || (h.Regime == "" && h.Supplier != nil && h.Supplier.TaxID != nil && h.Supplier.TaxID.Country == "PT")
+	}
+	isPT := pt(&d.head)
 	if d.Doc != nil {
 		tags, addons = append(tags, d.Doc.Tags...), append(addons, d.Doc.Addons...)
+		isPT = isPT || pt(d.Doc)
 	}
 	has := false
 	for _, t := range tags {
@@ -163,11 +180,11 @@ func customerRatesWithAddon(data []byte) bool {
 		return false
 	}
 	for _, a := range addons {
-		if a == "pt-saft-v1" {
+		if a == "pt-saft-v1" || a == "es-verifactu-v1" {
 			return true
 		}
 	}
-	return false
+	return isPT
 }
 
 func codeNotIdempotent(s string) bool {
@@ -240,6 +257,11 @@ func Run(c *core.Ctx) int {
 				cases = append(cases, Case{Name: cs.Name + "+" + a, Data: b})
 			}
 		}
+		// the customer-rates family (customerrates.go): grid + random documents
+		for i, sp := range crSpecs(c.Rng, c.Pick(400, 20000)) {
+			sp := sp
+			cases = append(cases, Case{Name: fmt.Sprintf("customer-rates-%d", i), Data: crDocument(sp), CR: &sp})
+		}
 		// random documents
 		n := c.Pick(1500, 100000)
 		for i := 0; i < n; i++ {
@@ -262,6 +284,7 @@ func Run(c *core.Ctx) int {
 
 	var forWorker [][]byte
 	var workerWant []string
+	var crQueue []crPending
 	for i, cs := range cases {
 		var env *gobl.Envelope
 		var err error
@@ -271,11 +294,16 @@ func Run(c *core.Ctx) int {
 		}
 		if err != nil {
 			c.Count("build:error", 1)
+			if cs.CR != nil {
+				c.Count("customer-rates:build-error:"+cs.CR.Schema+":"+cs.CR.Regime+":"+cs.CR.Customer, 1)
+			}
 			continue
 		}
 		kind := "example"
 		if cs.Doc != nil {
 			kind = "random"
+		} else if cs.CR != nil {
+			kind = "customer-rates"
 		} else if strings.Contains(cs.Name, "+") {
 			kind = "example+addon"
 		}
@@ -371,11 +399,16 @@ func Run(c *core.Ctx) int {
 			}
 			prev, prevDig = b, dig
 		}
+		if cs.CR != nil {
+			crJudge(c, cs, b1, cls, &crQueue)
+		}
 		if ok && len(forWorker) < c.Pick(600, 20000) {
 			forWorker = append(forWorker, b1)
 			workerWant = append(workerWant, fmt.Sprintf("%s %x", prevDig, len(b1)))
 		}
 	}
+	// the customer-rates family against Model/CustomerRates.lean
+	crCompare(c, crQueue)
 	// (4) another process, GOMAXPROCS=1
 	if len(forWorker) > 0 && !c.Search {
 		cmd := exec.Command(os.Args[0], "-root", c.Root, "-repo", c.Repo, "-model", c.ModelBin, "C04")
